@@ -54,7 +54,8 @@ class _LocalManager:
 class Observation:
     __slots__ = ("outcomes", "okeys", "final", "final_key", "deadlock", "hang", "locked", "mutex_owned",
                  "trace", "points", "yield_points", "events", "followup", "harness_errors", "reader_values",
-                 "observer_findings", "cond_stats", "observer_stats", "removal_findings", "line_points", "fault_fired")
+                 "observer_findings", "cond_stats", "observer_stats", "removal_findings", "line_points", "fault_fired",
+                 "lazy_primitives")
 
 
 def outcome_key(op, out):
@@ -206,6 +207,7 @@ class ScenarioRunner:
         if scn.mode == "mp" and not getattr(store, "use_multiprocessing", False):
             raise Inconclusive("store built with USE_MULTIPROCESSING=True did not enter multiprocessing mode")
         conds = S.adopt_store(store, owner)
+        self._n_constructed = len(owner.created)
         self._generic_lists = bool(conds)
         if not conds:
             try:
@@ -254,9 +256,12 @@ class ScenarioRunner:
         probe.install()
         if line_level:
             S.LineYield.enable(sch, focus="sync" if line_level == "sync" else "all")
+        # primitives the store creates lazily, inside a call (a per-identifier lock table, say), are scheduler-owned too
+        owner.__enter__()
         try:
             sch.run()
         finally:
+            owner.__exit__()
             if line_level:
                 S.LineYield.disable()
         holder["s"] = None
@@ -277,7 +282,10 @@ class ScenarioRunner:
         if not lists:
             lists = S.locked_lists(store, scn.mode)
         ob.locked = {k: v for k, v in lists.items() if v}
-        ob.mutex_owned = sorted({c.mutex.name for c in conds.values() if c.mutex.owner is not None})
+        ob.mutex_owned = sorted({c.mutex.name for c in conds.values() if c.mutex.owner is not None}
+                                | {lk.mutex.name for lk in owner.created if isinstance(lk, S.SchedLock)
+                                   and lk.mutex.owner is not None})
+        ob.lazy_primitives = max(0, len(owner.created) - self._n_constructed) if hasattr(self, "_n_constructed") else 0
         ob.cond_stats = {k: dict(c.stats) for k, c in conds.items()}
         ob.observer_findings = getattr(observer, "findings", []) if observer else []
         ob.removal_findings = list(self._removal_findings)
@@ -286,7 +294,11 @@ class ScenarioRunner:
         ob.final_key = ob.final.key()
         ob.followup = []
         if with_followup and not (ob.deadlock or ob.hang):
-            ob.followup = self._followup(store, env)
+            owner.__enter__()
+            try:
+                ob.followup = self._followup(store, env)
+            finally:
+                owner.__exit__()
         if self.runs % 50 == 0:
             clear_atexit_tmp_handlers()
         return ob
